@@ -77,6 +77,15 @@ def lean_phase(ctx: Ctx, mod) -> str:
     return checker_cmd
 
 
+def _shrink(mod, ctx, case, classifier):
+    """mod.shrink with the early stop switched off (shrinking probes the oracle many times on purpose)"""
+    core.EARLY_STOP[0] = False
+    try:
+        return mod.shrink(ctx, case, classifier)
+    finally:
+        core.EARLY_STOP[0] = True
+
+
 def decide(ctx: Ctx, mod) -> int:
     """apply the verdict logic; prints KNOWN-FINDING / VIOLATION lines; returns exit code"""
     rc = 0
@@ -87,7 +96,7 @@ def decide(ctx: Ctx, mod) -> int:
         case = v["case"]
         if hasattr(mod, "shrink"):
             try:
-                case = mod.shrink(ctx, case, v["classifier"])
+                case = _shrink(mod, ctx, case, v["classifier"])
             except Exception:
                 pass
         path = core.write_replay(ctx, {"kind": "oracle-violation-on-real-code", "classifier": v["classifier"],
@@ -121,7 +130,7 @@ def decide(ctx: Ctx, mod) -> int:
             case = found["case"]
             if hasattr(mod, "shrink"):
                 try:
-                    case = mod.shrink(ctx, case, found["classifier"])
+                    case = _shrink(mod, ctx, case, found["classifier"])
                 except Exception:
                     pass
             path = core.write_replay(ctx, {"kind": "failing-input-after-broken-obligation",
